@@ -137,6 +137,8 @@ def hermitian_configs(tier, hermitian=True):
     if tier == "thorough":
         for N in (2, 3, 4, 5):
             for sizes in compositions_of(N, 3):
+                if len(sizes) == 1:
+                    continue  # a single block implies full diagonalisation, which custom solvers (carrier B) do not support
                 if sizes in quick_layouts and N < 5:
                     # deepen the quick layouts
                     add(carrier="B", sizes=sizes, spectrum=RAT_SPECTRA[N], terms=[[1], [2]], max_order=4)
@@ -148,9 +150,9 @@ def hermitian_configs(tier, hermitian=True):
                     add(carrier="B", sizes=sizes, spectrum="symdeg", terms=[[1]], max_order=3)
         add(carrier="B", sizes=[1, 1, 1, 1], spectrum=RAT_SPECTRA[4], terms=[[1], [2]], max_order=4)
         add(carrier="B", sizes=[1, 1, 1, 1], spectrum="sym", terms=[[1]], max_order=2)
-        for sizes in [[1, 1], [1, 2], [2, 1], [1, 1, 1], [3]]:
+        for sizes in [[1, 1], [1, 2], [2, 1], [1, 1, 1]]:
             N = sum(sizes)
-            if sizes != [3]:
+            if True:
                 add(carrier="B", sizes=sizes, spectrum=RAT_SPECTRA[N], terms=[[1, 0], [0, 1], [1, 1]], max_order=4)
                 add(carrier="B", sizes=sizes, spectrum=RAT_SPECTRA_ALT[N],
                     terms=[[1, 0, 0], [0, 1, 0], [0, 0, 1]], max_order=3)
